@@ -118,6 +118,16 @@ class FuncInfo(Scope):
     return f'<Func {self.qualname}>'
 
 
+def _index_nested(fi):
+  """Functions nested in a view's (copied) definition, as views' children:
+  not registered with the project, reachable through `nested` only."""
+  for st in walk_function(fi.node):
+    if isinstance(st, (ast.FunctionDef, ast.AsyncFunctionDef)):
+      sub = FuncInfo(fi.module, f'{fi.qualname}.{st.name}', st, fi)
+      fi.nested[st.name] = sub
+      _index_nested(sub)
+
+
 class CallbackView(FuncInfo):
   """A function used as a callback with some leading parameters already bound
   (`functools.partial(f, a, b)`, a bound method, an instance with __call__):
@@ -173,6 +183,7 @@ class CallbackView(FuncInfo):
       self._skip = keep_first
       self.nested = {}
       self.lambdas = []
+      _index_nested(self)
 
   @property
   def params(self) -> List[str]:
@@ -302,6 +313,7 @@ class Project:
       if hp:
         self.inlined = inline.Inliner(
             self, None if hp is True else list(hp)).run().sites
+        self._drop_expanded_helpers(inline)
       fns = [f for f in self.funcs.values() if not f.is_lambda]
       k_t = 0
       if expand.get('temps'):
@@ -320,6 +332,52 @@ class Project:
             k_t += sum(normalise.eliminate_temps(f.node) for f in fns)
       if k_t:
         self.inlined.append(f'{k_t} single-assignment local(s) substituted')
+
+  def _drop_expanded_helpers(self, inline):
+    """Module-level helpers whose every use was expanded are dead in the view
+    (nothing in the tree names them any more): they leave it, so that rules
+    which scan all functions do not read the same statements twice, once in
+    their context and once out of it.  Only private functions and functions
+    the reference tree does not have are dropped."""
+    expanded = set()
+    for s_ in self.inlined:
+      for sep in (' <= ', ' <- '):
+        if sep in s_:
+          expanded.add(s_.split(sep, 1)[1])
+    if not expanded:
+      return
+    attrs, names_by_mod, imported = set(), {}, set()
+    for m in self.modules.values():
+      nm = names_by_mod.setdefault(m.name, {})
+      for n in ast.walk(m.tree):
+        if isinstance(n, ast.Attribute):
+          attrs.add(n.attr)
+        elif isinstance(n, ast.Name):
+          nm[n.id] = nm.get(n.id, 0) + 1
+        elif isinstance(n, ast.ImportFrom):
+          imported |= {al.name for al in n.names}
+        elif isinstance(n, ast.Constant) and isinstance(n.value, str):
+          imported.add(n.value)  # __all__, getattr(mod, 'name')
+    for q in sorted(expanded):
+      h = self.funcs.get(q)
+      if h is None or h.is_lambda or h.parent is not h.module:
+        continue
+      if not (h.name.startswith('_') or inline._new_public_function(h)):  # pylint: disable=protected-access
+        continue
+      inside = sum(1 for n in ast.walk(h.node) if isinstance(
+          n, ast.Name) and n.id == h.name)
+      if h.name in attrs or h.name in imported or names_by_mod[
+          h.module.name].get(h.name, 0) > inside:
+        continue
+      mod = h.module
+      if h.node in mod.tree.body:
+        mod.tree.body.remove(h.node)
+      mod.funcs.pop(h.name, None)
+      for fq in [fq for fq in self.funcs if fq == q or fq.startswith(q + '.')]:
+        f = self.funcs.pop(fq)
+        if f in mod.all_funcs:
+          mod.all_funcs.remove(f)
+      self.inlined.append(f'{q} left the view (every use expanded)')
 
   # ---------------------------------------------------------------- loading
   def _load(self):
@@ -644,7 +702,9 @@ class Project:
     modq, _, name = q.rpartition('.')
     outer = self.funcs.get(modq)
     if outer is None and modq not in self.modules and (
-        modq not in self.classes) and modq.rpartition('.')[0] in self.modules:
+        modq not in self.classes) and (
+            modq.rpartition('.')[0] in self.modules or
+            modq.rpartition('.')[0] in self.funcs):
       outer = self._relocated(modq)  # the enclosing function moved as well
     if outer is not None and not outer.is_lambda:
       return self.nested_of(outer, name)
@@ -698,7 +758,14 @@ class Project:
     if len(passed) == 1:
       return outer.nested[passed[0]]
     if not cands:
-      return self.callback_of(outer)
+      cb = self.callback_of(outer)
+      if cb is None and getattr(self, 'ctx', None) is not None:
+        # the closure written as a module-level function that takes its free
+        # variables as parameters
+        lifted = list(self.ctx.lifted_helpers(outer).values())
+        if len(lifted) == 1:
+          cb = lifted[0]
+      return cb
     return None
 
   def callbacks(self, outer: FuncInfo) -> List[FuncInfo]:
